@@ -102,7 +102,7 @@ CUSTOM_NAMES = {
 INDEX_SENSITIVE = {"whole_type", "i8_many_before_later", "n255_holes", "n256_gapless", "n257_holes", "gapless_from_min",
                    "gapless_to_max", "touch_min_max", "first_run_at_min", "neg_later_runs", "neg_many_runs",
                    "run_at_min_then_neg", "gapless_neg", "gapless_span0", "last_run_at_max", "narrow_limits_holes",
-                   "many_runs_uneven", "many_runs_uneven_neg", "across_narrow_umax"}
+                   "many_runs_uneven", "many_runs_uneven_neg", "across_narrow_umax", "many_runs_40"}
 
 
 def catalogue_cases(ids: IdGen, tier: str, seed: int = 1):
